@@ -9,6 +9,8 @@
    expression of the modelled code through idx/slice) and `alloc`, the bytes requested from
    make/append before the input justifies them.  All statements are for ALL byte strings. *)
 From XMT Require Import Base.Prelude Model.Codec Model.Decoders Proofs.Decoders.
+From Coq Require String.
+Import String.StringSyntax.
 
 (* ---- no decoder panics -------------------------------------------------------------- *)
 (* DNS transform, string lists and byte strings over a Chunk and over the stream reader, the
@@ -144,6 +146,27 @@ Theorem C04_counted_list_terminates :
 Proof. exact counted_fuel. Qed.
 Print Assumptions C04_counted_list_terminates.
 
+(* ---- the JSON view an operator gets of a Session --------------------------------------------
+   session_json f is the text Session.JSON writes, as a function of the leaves f (what
+   ID.String, util.Uitoa, escape.JSON, Time.Format ... returned; the correspondence run compares it
+   byte for byte with the real output and evaluates sess_okb on the real leaves).  json_wf t: t is
+   exactly one JSON value (objects, arrays, strings, integers, booleans; byte-level grammar
+   jvalk of Proofs/Decoders.v). *)
+Theorem C04_json_wellformed :
+  forall f, sess_okb f = true -> json_wf (session_json f).
+Proof. exact session_json_wf. Qed.
+Print Assumptions C04_json_wellformed.
+
+(* whatever strings the client supplied (user, hostname, version, interface names, proxy names
+   and addresses, and the address it connected from): they only enter through escape.JSON, whose
+   contract (it returns a JSON string literal) is the hypothesis *)
+Theorem C04_json_wellformed_any_client_strings :
+  forall (escape : list Z -> list Z), (forall s, is_jstr (escape s) = true) ->
+  forall f user host ver via names proxies, sess_okb f = true ->
+  json_wf (session_json (with_client_strings escape f user host ver via names proxies)).
+Proof. exact session_json_wf_any_strings. Qed.
+Print Assumptions C04_json_wellformed_any_client_strings.
+
 (* ---- the known finding stream-bytes-alloc: the stream reader -------------------------------
    FULL statement (false on the tree):
      forall bs, bytes_ok bs = true -> alloc (run DBytesS bs) <= 128 * len bs + 1048576
@@ -173,5 +196,12 @@ Example C04_nonvacuous :
   outcome (receive_bytes
     [65;66;67;68;69;70;71;72;73;74;75;76;77;78;79;80;81;82;83;84;85;86;87;88;89;90;91;92;93;94;95;96]
     [192;0;1;0;0;0;3;0;0;0;5;0;1;65;66;67;68;69;70;71;72;73;74;75;76;77;78;79;80;81;82;83;84;85;86;87;
-     88;89;90;91;92;93;94;95;96;1;4;1;8;15;22]) = Ok [1].
+     88;89;90;91;92;93;94;95;96;1;4;1;8;15;22]) = Ok [1] /\
+  (* leaves that keep their contract exist (one interface with two addresses, work hours, a proxy) *)
+  sess_okb (Build_sess (lit "4142") (lit "7") false (lit "41424344") (lit """a\""b""") (lit """h""") (lit """v""") (lit "x64")
+     (lit """Linux""") true (lit "") false (lit "4242") (lit "1")
+     [Build_netdev (lit """eth0""") (lit "00:aa") [lit "10.0.0.1"; lit "::1"]]
+     (lit "2026-10-01T00:00:00Z") (lit "2026-10-01T00:00:01Z") (lit """tcp""") (lit "30000000000") (lit "10") (lit "")
+     (Some (Build_workh (lit "9") (lit "0") (lit "17") (lit "30") (lit "SMTWRFS"))) (Some (lit """verif""")) None
+     [(lit """p""", lit """127.0.0.1:80""")]) = true.
 Proof. repeat split; vm_compute; reflexivity. Qed.
